@@ -6,7 +6,7 @@
    collects are table regions, pairwise equal or disjoint. *)
 From CV Require Import Core.Builder Core.ReaderFacts Core.BuilderFacts Core.AllocProofs
   Core.WritePtrProofs Core.HeapProofs Core.BuildOps Core.BuildValid Core.BuildInv Core.HeapInv Core.HeapOps.
-From Coq Require Import ZifyBool ZifyNat.
+From Coq Require Import ZifyBool ZifyNat FinFun.
 Open Scope Z_scope.
 
 Ltac Zify.zify_post_hook ::= Z.div_mod_to_equations.
@@ -138,3 +138,80 @@ Section Worklist.
       destruct t; cbn in NB; try discriminate NB; exact Hstep.
   Qed.
 End Worklist.
+
+(* ------------------------------------------------------------------ children of decoded targets *)
+Lemma NoDup_zseq start n : NoDup (zseq start 8 n).
+Proof.
+  unfold zseq. apply Injective_map_NoDup; [|apply seq_NoDup].
+  intros x y E. lia.
+Qed.
+
+Lemma NoDup_pair_map (s : Z) (l : list Z) : NoDup l -> NoDup (map (fun a : Z => (s, a)) l).
+Proof. intros H. apply Injective_map_NoDup; [|exact H]. intros x y E. congruence. Qed.
+
+Lemma decode_obj_children (ms : segs) sid base w t rs :
+  decode_obj ms sid base w = (t, rs) -> simple_target t ->
+  NoDup (children t) /\ (forall r, rs = [r] -> r_size r = 0 -> children t = []).
+Proof.
+  intros H S. unfold decode_obj in H. cbv zeta in H.
+  destruct (f_A w =? 0).
+  - destruct (in_seg ms sid _ _).
+    2:{ inversion H; subst; cbn in S; contradiction. }
+    apply pair_equal_spec in H. destruct H as [<- <-].
+    cbn [children]. split; [apply NoDup_pair_map, NoDup_zseq|].
+    intros r Er Hz. assert (Er' : r = mkReg sid (base + 8 * f_off w) (8 * (f_dw w + f_pc w))) by congruence.
+    subst r. change (8 * (f_dw w + f_pc w) = 0) in Hz.
+    assert (Hpc : f_pc w = 0) by (unfold f_dw, f_pc in *; lia). rewrite Hpc. reflexivity.
+  - destruct (f_C w <? 7) eqn:E7.
+    + destruct (in_seg ms sid _ _).
+      2:{ inversion H; subst; cbn in S; contradiction. }
+      apply pair_equal_spec in H. destruct H as [<- <-].
+      cbn [children]. destruct (f_C w =? 6) eqn:E6; [|split; [constructor|reflexivity]].
+      split; [apply NoDup_pair_map, NoDup_zseq|].
+      intros r Er Hz. assert (Er' : r = mkReg sid (base + 8 * f_off w) ((f_D w * et_bits (f_C w) + 63) / 64 * 8)) by congruence.
+      subst r. change ((f_D w * et_bits (f_C w) + 63) / 64 * 8 = 0) in Hz.
+      assert (HC : f_C w = 6) by lia. rewrite HC in Hz. change (et_bits 6) with 64 in Hz.
+      assert (HD : f_D w = 0) by (unfold f_D in *; lia). rewrite HD. reflexivity.
+    + destruct (negb (in_seg ms sid _ _)); [inversion H; subst; cbn in S; contradiction|].
+      destruct (word_at ms sid (base + 8 * f_off w)); [|inversion H; subst; cbn in S; contradiction].
+      destruct (negb _); [inversion H; subst; cbn in S; contradiction|].
+      destruct (negb _); inversion H; subst; cbn in S; contradiction.
+Qed.
+
+Lemma resolve_children (ms : segs) s a t rs :
+  resolve_ptr ms s a = (t, rs) -> simple_target t ->
+  NoDup (children t) /\ (forall ps r, rs = ps ++ [r] -> r_size r = 0 -> children t = []).
+Proof.
+  intros H S. unfold resolve_ptr in H.
+  destruct (word_at ms s a) as [w|]; [|inversion H; subst; cbn in S; contradiction].
+  destruct (w =? 0); [inversion H; subst; split; [constructor|reflexivity]|].
+  destruct (f_A w =? 3).
+  { destruct (_ =? 0); inversion H; subst; [split; [constructor|reflexivity]|cbn in S; contradiction]. }
+  destruct (f_A w =? 2).
+  - cbv zeta in H. destruct (f_B w =? 0).
+    + destruct (negb _); [inversion H; subst; cbn in S; contradiction|].
+      destruct (word_at ms (f_seg w) (8 * f_padoff w)) as [pw|]; [|inversion H; subst; cbn in S; contradiction].
+      destruct (_ || _); [inversion H; subst; cbn in S; contradiction|].
+      destruct (decode_obj ms (f_seg w) (8 * f_padoff w + 8) pw) as [t0 rs0] eqn:ED. inversion H; subst.
+      destruct (decode_obj_children _ _ _ _ _ _ ED S) as [N Z]. split; [exact N|].
+      intros ps r E Hz. destruct (decode_obj_one _ _ _ _ _ _ ED S) as [r0 ->].
+      apply (Z r0); [reflexivity|].
+      match type of E with ?x :: [r0] = _ => change (x :: [r0]) with ([x] ++ [r0]) in E end.
+      symmetry in E. apply app_inj_tail in E. destruct E as [_ E]. subst r. exact Hz.
+    + destruct (negb _); [inversion H; subst; cbn in S; contradiction|].
+      destruct (word_at ms (f_seg w) (8 * f_padoff w)) as [fw|]; [|inversion H; subst; cbn in S; contradiction].
+      destruct (word_at ms (f_seg w) (8 * f_padoff w + 8)) as [tag|]; [|inversion H; subst; cbn in S; contradiction].
+      destruct (negb _); [inversion H; subst; cbn in S; contradiction|].
+      destruct (_ || _); [inversion H; subst; cbn in S; contradiction|].
+      destruct (decode_obj ms (f_seg fw) (8 * f_padoff fw) tag) as [t0 rs0] eqn:ED. inversion H; subst.
+      destruct (decode_obj_children _ _ _ _ _ _ ED S) as [N Z]. split; [exact N|].
+      intros ps r E Hz. destruct (decode_obj_one _ _ _ _ _ _ ED S) as [r0 ->].
+      apply (Z r0); [reflexivity|].
+      match type of E with ?x :: [r0] = _ => change (x :: [r0]) with ([x] ++ [r0]) in E end.
+      symmetry in E. apply app_inj_tail in E. destruct E as [_ E]. subst r. exact Hz.
+  - destruct (decode_obj ms s (a + 8) w) as [t0 rs0] eqn:ED. inversion H; subst.
+    destruct (decode_obj_children _ _ _ _ _ _ ED S) as [N Z]. split; [exact N|].
+    intros ps r E Hz. destruct (decode_obj_one _ _ _ _ _ _ ED S) as [r0 ->].
+    apply (Z r0); [reflexivity|].
+    change [r0] with ([] ++ [r0]) in E. symmetry in E. apply app_inj_tail in E. destruct E as [_ E]. subst r. exact Hz.
+Qed.
